@@ -459,10 +459,10 @@ def replay_direct(blob):
 
 REACH = {"parser": ["nested_split", "accepted_with_points"], "document": ["nested"]}
 HARNESSES = [
-    H("parser", h_parser, quick=[dict(K=8)], thorough=[dict(K=10)], functions=FUNCTIONS, validate=False, opts=dict(max_decisions=400, sym_hash=True),
-      bounds="EVERY token stream of at most K=8 (quick) / 10 (thorough) positions over the 7 token kinds and the point macro (FLOAT values symbolic reals, 4 literal spellings): converter accepts iff the reference grammar does, and on acceptance the node table equals the reference translation"),
-    H("document", h_document, quick=[dict(depth=1, points=3), dict(depth=2, points=3, narrow=True)], thorough=[dict(depth=2, points=3), dict(depth=3, points=4, narrow=True)], functions=FUNCTIONS, validate=False,
-      bounds="documents generated from the grammar through the real Lexer: one level of splits with 0-2 points per branch, 1-3 alternatives incl. empty ones and a point after the split (237 shapes), and two levels with narrower inner levels (quick); two full levels / three narrow levels (thorough); four styles (label spelling, separators: none / comment / colour / blank lines, header comment / colour); EVERY truncation of each document and five corruptions of EVERY point"),
+    H("parser", h_parser, quick=[dict(K=8)], thorough=[dict(K=9)], functions=FUNCTIONS, validate=False, opts=dict(max_decisions=400, sym_hash=True),
+      bounds="EVERY token stream of at most K=8 (quick) / 9 (thorough) positions over the 7 token kinds and the point macro (FLOAT values symbolic reals, 4 literal spellings): converter accepts iff the reference grammar does, and on acceptance the node table equals the reference translation"),
+    H("document", h_document, quick=[dict(depth=1, points=3), dict(depth=2, points=3, narrow=True)], thorough=[dict(depth=1, points=4), dict(depth=2, points=4, narrow=True)], functions=FUNCTIONS, validate=False,
+      bounds="documents generated from the grammar through the real Lexer: one level of splits with 0-2 points per branch, 1-3 alternatives incl. empty ones and a point after the split (237 shapes), and two levels with narrower inner levels (quick); the same with up to 4 points (thorough); four styles (label spelling, separators: none / comment / colour / blank lines, header comment / colour); EVERY truncation of each document and five corruptions of EVERY point"),
     H("lexer", h_lexer, quick=[dict(length=k) for k in (1, 2, 3, 4)], thorough=[dict(length=5)], functions=FUNCTIONS, validate=False,
       bounds="every string of length <= 4 (quick) / 5 (thorough) over the alphabet ( ) | ; space newline 1 . - e a (solver-enumerated), real Lexer vs reference tokenizer"),
     Direct("number_language", d_number_language, functions=FUNCTIONS, bounds="words of ANY length over ASCII: z3 sequence theory on the real RE_FLOAT"),
